@@ -949,8 +949,23 @@ def check_regrid(c):
         err = (after - before).abs().max().item() / A
     else:
         before = world_disp(t)
+        # out-of-place twin first: `t.grid(g1)` re-grids a shallow COPY; the original keeps evaluating its own (unchanged)
+        # parameters on its own grid with its own convention — nothing the copy does may reach it (seeded change C09-10: the
+        # exponential module shared between original and copy got the copy's align_corners)
+        t2 = t.grid(g1)
+        again = world_disp(t)
+        if t.grid() is not g0 and t.grid() != g0:
+            return (f"C09:regrid:{fam}:out-of-place-grid-rebinds-original", f"{type(t).__name__}.grid(g): the original's grid changed")
+        drift = (again - before).abs().max().item() / (4.0 * A)
+        if drift > 1e-5:
+            return (f"C09:regrid:{fam}:out-of-place-grid-changes-original",
+                    f"{type(t).__name__}.grid(g) (out of place): the ORIGINAL's world deformation changed by {drift:.3e} of the amplitude")
+        copy_err = (world_disp(t2) - before).abs().max().item() / (4.0 * A)
         t.grid_(g1)
         after = world_disp(t)
+        if abs(copy_err - (after - before).abs().max().item() / (4.0 * A)) > 1e-5:
+            return (f"C09:regrid:{fam}:out-of-place-differs-from-in-place",
+                    f"{type(t).__name__}: grid(g) and grid_(g) give different deformations ({copy_err:.3e} vs in-place)")
         err = (after - before).abs().max().item() / (4.0 * A)     # world amplitude: half extent 4 × A
     tol = regrid_tol(fam, min(list(n0) + list(c["n1"])))
     if c.get("linear"):
